@@ -33,11 +33,15 @@ fn main() {
     let cfg = GenCfg::from_args(&args, Focus::Flush);
     let seed = args.seed;
     let run_case = |i: u64, r: &mut Report| {
+        if lane_poisoned() {
+            r.inconclusive("receiver threads did not exit after the sender was dropped (left behind); the remaining histories of this lane were skipped");
+            return;
+        }
         let plan = gen_plan(seed, 7, i, &cfg);
         let h = run_plan(&plan, cfg.delays);
         observe_history(&h, r);
         if let Some(s) = &h.stuck {
-            r.inconclusive(format!("C07 sequential history seed={} case={}: {}", h.plan.seed, h.plan.case, s));
+            r.inconclusive(format!("C07 {} history seed={} case={}: {}", h.plan.shape(), h.plan.seed, h.plan.case, s));
         }
         if h.early_drop() {
             r.observe("histories:excluded-receiver-dropped-early", 1);
